@@ -149,6 +149,7 @@ Section EvalPure.
       generalize (@nil (string * json)) as acc.
       induction IH as [|[k v] kv' Hx Hl IHl]; intro acc; [apply state_pure_ret|].
       apply state_pure_bind; [apply state_pure_lift_eval|intro k'].
+      apply state_pure_bind; [destruct k'; first [apply state_pure_raise|apply state_pure_ret]|intros _].
       apply state_pure_bind; [apply Hx|intro v'].
       destruct k'; try apply state_pure_raise. apply IHl.
   Qed.
